@@ -46,16 +46,33 @@ def relock_regression(ck):
                    allow_error=True, timeout=3000, workers=min(vf.NCPU, 12))
         if not r.error or r.error["name"] != "InvNoRelock" or not r.trace_json:
             raise vf.Infra("ChordKV with forward-under-lock and interleaving stabilize rounds no longer violates InvNoRelock: %s" % (r.error,))
-        states = ringlib.cex_states(r.trace_json)
-    sc = ck.replay if (ck.replay is not None and ck.replay.get("relock")) else dict(relock_scenario(states, "relock-witness"), relock=True)
-    ev = ringlib.run_scenarios(ck, [sc], timeout=600)
-    final = [e for e in ev if "ops" in e and e.get("t") != "step"]
-    steps = [e for e in ev if e.get("t") == "step"]
-    seen = [(e.get("op"), e.get("to")) for e in steps if e.get("op") in ("c1", "lw")]
-    # the replay is only meaningful if the request really came back to the node that handled it first
-    locals_ = [t for o, t in seen if o == "c1" and str(t).startswith("kv:local@")]
-    if len(locals_) < 2 or locals_[0] != locals_[1]:
-        raise vf.Infra("relock witness not reproduced on the real nodes: gates of the client operation %s" % [t for o, t in seen if o == "c1"])
+        fresh = ringlib.cex_states(r.trace_json)
+    else:
+        fresh = None
+
+    def attempt(sts, name):
+        sc = ck.replay if (ck.replay is not None and ck.replay.get("relock")) else dict(relock_scenario(sts, name), relock=True)
+        ev = ringlib.run_scenarios(ck, [sc], timeout=600)
+        final = [e for e in ev if "ops" in e and e.get("t") != "step"]
+        steps = [e for e in ev if e.get("t") == "step"]
+        seen = [(e.get("op"), e.get("to")) for e in steps if e.get("op") in ("c1", "lw")]
+        # the replay is only meaningful if the request really came back to the node that handled it first
+        locals_ = [t for o, t in seen if o == "c1" and str(t).startswith("kv:local@")]
+        return sc, final, seen, (len(locals_) >= 2 and locals_[0] == locals_[1])
+
+    sc = final = seen = None
+    if fresh is not None:
+        # TLC's breadth-first search with several workers does not always return the same shortest behaviour; one that the abstraction of
+        # lookups admits but the real finger tables do not route is not a witness on real nodes: the stored one then stands
+        sc, final, seen, okw = attempt(fresh, "relock-witness-fresh")
+        if not okw:
+            ck.notes.append("the freshly searched relock behaviour is not routed that way by the real finger tables (gates %s): the stored witness is replayed"
+                            % [t for o, t in seen if o == "c1"])
+            sc = None
+    if sc is None:
+        sc, final, seen, okw = attempt(states, "relock-witness")
+        if not okw:
+            raise vf.Infra("relock witness not reproduced on the real nodes: gates of the client operation %s" % [t for o, t in seen if o == "c1"])
     ck.count("relock-witness", True)
     ck.traces += 1
     ops = final[-1]["ops"] if final else {}
